@@ -921,6 +921,9 @@ func (s *State) extendFunctionEnv(
 			}
 		}
 		if needVariable {
+			if object.Constant(param.Value().Literal()) {
+				env.TriggerNoCache() // binding it is checked against the constant's current value: not a function of the arguments.
+			}
 			oerr := env.CreateOrSet(param.Value().Literal(), pval, true)
 			if log.LogVerbose() {
 				log.LogVf("set %s to %s - %s", param.Value().Literal(), args[paramIdx].Inspect(), oerr.Inspect())
